@@ -16,6 +16,7 @@ import (
 	"go/token"
 	"go/types"
 	"sort"
+	"strings"
 )
 
 type fieldKey struct {
@@ -371,6 +372,8 @@ type resetScope struct {
 	TypePkg   string // package (relative) of T
 	TypeName  string
 	Entry     string   // scope entry E ("pkg.Type.Method")
+	Entries   []string // several sibling entries of one scope (each must reset what it may write)
+	OnlyKeyedBy string // if set: only fields whose type mentions this ir type (function-local identity, e.g. ExpressionHandle) are obligated
 	ResetFunc string   // where the prologue is looked up (default: Entry)
 	Outer     []string // for nested scopes: the driver entries; fields also written outside E are not obligated
 	Exception map[string]string
@@ -392,51 +395,38 @@ func (c *Ctx) runResetScope(r *Report, rule string, sc resetScope) {
 		r.undecided(rule, sc.Name, "", sc.TypeName+" is not a struct")
 		return
 	}
-	entry := c.lookupFunc(sc.Entry)
-	if entry == nil {
-		r.undecided(rule, sc.Name, "", "scope entry "+sc.Entry+" not found")
-		return
+	entryIDs := append([]string{}, sc.Entries...)
+	if sc.Entry != "" {
+		entryIDs = append(entryIDs, sc.Entry)
 	}
-	efi := c.funcByObj(entry)
-	if efi == nil {
-		r.undecided(rule, sc.Name, "", "scope entry "+sc.Entry+" has no body")
-		return
-	}
-	inScope := c.reach(entry)
-	// writes inside the scope
-	mut := map[string]fieldWrite{}
-	for _, fn := range c.allFuncs() {
-		if fn.Obj == nil || !inScope[fn.Obj] || c.isConstructorOf(fn, tn) {
-			continue
+	var entries []*types.Func
+	for _, id := range entryIDs {
+		e := c.lookupFunc(id)
+		if e == nil || c.funcByObj(e) == nil {
+			r.undecided(rule, sc.Name, "", "scope entry "+id+" not found")
+			return
 		}
-		for _, w := range c.fieldWritesOf(fn) {
-			if w.Key.T == tn {
-				if _, ok := mut[w.Key.F]; !ok {
-					mut[w.Key.F] = w
-				}
-			}
-		}
+		entries = append(entries, e)
 	}
-	// writes outside the scope (nested scopes only)
+	// writes outside the scope (nested scopes only): reachability from the
+	// drivers with every scope entry cut out
 	outside := map[string]bool{}
 	if len(sc.Outer) > 0 {
-		var outs []*types.Func
+		g := c.graph()
+		seen := map[*types.Func]bool{}
+		for _, e := range entries {
+			seen[e] = true
+		}
+		var stack []*types.Func
 		for _, o := range sc.Outer {
 			f := c.lookupFunc(o)
 			if f == nil {
 				r.undecided(rule, sc.Name, "", "outer entry "+o+" not found")
 				return
 			}
-			outs = append(outs, f)
-		}
-		// reachability with the scope entry cut out
-		g := c.graph()
-		seen := map[*types.Func]bool{entry: true}
-		var stack []*types.Func
-		for _, o := range outs {
-			if !seen[o] {
-				seen[o] = true
-				stack = append(stack, o)
+			if !seen[f] {
+				seen[f] = true
+				stack = append(stack, f)
 			}
 		}
 		for len(stack) > 0 {
@@ -449,7 +439,9 @@ func (c *Ctx) runResetScope(r *Report, rule string, sc resetScope) {
 				}
 			}
 		}
-		delete(seen, entry)
+		for _, e := range entries {
+			delete(seen, e)
+		}
 		for _, fn := range c.allFuncs() {
 			if fn.Obj == nil || !seen[fn.Obj] || c.isConstructorOf(fn, tn) {
 				continue
@@ -461,67 +453,89 @@ func (c *Ctx) runResetScope(r *Report, rule string, sc resetScope) {
 			}
 		}
 	}
-	rst := map[string]token.Pos{}
-	rfi := efi
-	if sc.ResetFunc != "" {
-		rf := c.lookupFunc(sc.ResetFunc)
-		if rf == nil || c.funcByObj(rf) == nil {
-			r.undecided(rule, sc.Name, "", "reset function "+sc.ResetFunc+" not found")
-			return
-		}
-		rfi = c.funcByObj(rf)
-	}
-	c.resetForms(rfi, tn, 0, rst)
-
 	var names []string
 	for i := 0; i < st.NumFields(); i++ {
 		names = append(names, st.Field(i).Name())
 	}
 	sort.Strings(names)
 	nMut := 0
-	for _, f := range names {
-		construct := sc.Name + ":" + sc.TypeName + "." + f
-		w, isMut := mut[f]
-		if !isMut {
-			r.triv(rule, construct, "", "never written inside the scope (configuration)")
-			continue
-		}
-		if outside[f] {
-			r.triv(rule, construct, c.pos(w.Pos), "also written outside the scope entry: state of the enclosing scope")
-			continue
-		}
-		nMut++
-		if pos, ok := rst[f]; ok {
-			r.ok(rule, construct, c.pos(pos), "")
-			continue
-		}
-		// by-value struct field reset sub-field by sub-field
-		if sub := c.nestedReset(tn, st, f, rst, inScope); sub != nil {
-			allOK := true
-			for _, g := range sub {
-				cst := construct + "." + g.name
-				switch {
-				case g.reset:
-					r.ok(rule, cst, c.pos(g.pos), "")
-				case sc.Exception[f+"."+g.name] != "":
-					r.exc(rule, cst, c.pos(g.pos), sc.Exception[f+"."+g.name])
-				default:
-					allOK = false
-					r.viol(rule, cst, c.pos(g.pos), "sub-field "+sc.TypeName+"."+f+"."+g.name+" is written during "+sc.Entry+" but the prologue resets only other sub-fields of "+f)
+	for ei, entry := range entries {
+		efi := c.funcByObj(entry)
+		inScope := c.reach(entry)
+		mut := map[string]fieldWrite{}
+		for _, fn := range c.allFuncs() {
+			if fn.Obj == nil || !inScope[fn.Obj] || c.isConstructorOf(fn, tn) {
+				continue
+			}
+			for _, w := range c.fieldWritesOf(fn) {
+				if w.Key.T == tn {
+					if _, ok := mut[w.Key.F]; !ok {
+						mut[w.Key.F] = w
+					}
 				}
 			}
-			_ = allOK
-			continue
 		}
-		if c.saveRestored(tn, f, inScope) {
-			r.ok(rule, construct, c.pos(w.Pos), "every writer brackets the field: saved before, restored after (save/restore discipline)")
-			continue
+		rst := map[string]token.Pos{}
+		rfi := efi
+		if sc.ResetFunc != "" {
+			rf := c.lookupFunc(sc.ResetFunc)
+			if rf == nil || c.funcByObj(rf) == nil {
+				r.undecided(rule, sc.Name, "", "reset function "+sc.ResetFunc+" not found")
+				return
+			}
+			rfi = c.funcByObj(rf)
 		}
-		if reason, ok := sc.Exception[f]; ok {
-			r.exc(rule, construct, c.pos(w.Pos), reason)
-			continue
+		c.resetForms(rfi, tn, 0, rst)
+		scopeName := sc.Name
+		if len(entries) > 1 {
+			scopeName = sc.Name + "@" + efi.Name
 		}
-		r.viol(rule, construct, c.pos(w.Pos), "field "+sc.TypeName+"."+f+" is written during "+sc.Entry+" ("+w.Form+") but is not re-initialised in its prologue: state leaks into the next invocation")
+		_ = ei
+		for _, f := range names {
+			construct := scopeName + ":" + sc.TypeName + "." + f
+			w, isMut := mut[f]
+			if !isMut {
+				r.triv(rule, construct, "", "never written inside the scope (configuration)")
+				continue
+			}
+			if outside[f] {
+				r.triv(rule, construct, c.pos(w.Pos), "also written outside the scope entries: state of the enclosing scope")
+				continue
+			}
+			if sc.OnlyKeyedBy != "" && !typeMentions(fieldType(st, f), sc.OnlyKeyedBy, map[types.Type]bool{}) {
+				r.triv(rule, construct, c.pos(w.Pos), "field type does not mention "+sc.OnlyKeyedBy+": not function-scoped identity (module-level accumulator or bracket state; not judged)")
+				continue
+			}
+			nMut++
+			if pos, ok := rst[f]; ok {
+				r.ok(rule, construct, c.pos(pos), "")
+				continue
+			}
+			// by-value struct field reset sub-field by sub-field
+			if sub := c.nestedReset(tn, st, f, rst, inScope); sub != nil {
+				for _, g := range sub {
+					cst := construct + "." + g.name
+					switch {
+					case g.reset:
+						r.ok(rule, cst, c.pos(g.pos), "")
+					case sc.Exception[f+"."+g.name] != "":
+						r.exc(rule, cst, c.pos(g.pos), sc.Exception[f+"."+g.name])
+					default:
+						r.viol(rule, cst, c.pos(g.pos), "sub-field "+sc.TypeName+"."+f+"."+g.name+" is written during "+efi.id()+" but the prologue resets only other sub-fields of "+f)
+					}
+				}
+				continue
+			}
+			if c.saveRestored(tn, f, inScope) {
+				r.ok(rule, construct, c.pos(w.Pos), "every writer brackets the field: saved before, restored after (save/restore discipline)")
+				continue
+			}
+			if reason, ok := sc.Exception[f]; ok {
+				r.exc(rule, construct, c.pos(w.Pos), reason)
+				continue
+			}
+			r.viol(rule, construct, c.pos(w.Pos), "field "+sc.TypeName+"."+f+" is written during "+efi.id()+" ("+w.Form+") but is not re-initialised in its prologue: state leaks into the next invocation")
+		}
 	}
 	r.inst("reset."+sc.Name, nMut)
 }
@@ -637,4 +651,47 @@ func (c *Ctx) saveRestored(T *types.TypeName, f string, inScope map[*types.Func]
 		}
 	}
 	return n > 0
+}
+
+func fieldType(st *types.Struct, name string) types.Type {
+	for i := 0; i < st.NumFields(); i++ {
+		if st.Field(i).Name() == name {
+			return st.Field(i).Type()
+		}
+	}
+	return nil
+}
+
+// typeMentions: the type's structure (map keys/values, elements, struct fields) mentions ir.<name>.
+func typeMentions(t types.Type, name string, seen map[types.Type]bool) bool {
+	if t == nil || seen[t] {
+		return false
+	}
+	seen[t] = true
+	t = types.Unalias(t)
+	switch x := t.(type) {
+	case *types.Named:
+		if isNamed(x, "ir", name) {
+			return true
+		}
+		if x.Obj().Pkg() == nil || !strings.HasPrefix(x.Obj().Pkg().Path(), modPath) {
+			return false
+		}
+		return typeMentions(x.Underlying(), name, seen)
+	case *types.Pointer:
+		return typeMentions(x.Elem(), name, seen)
+	case *types.Slice:
+		return typeMentions(x.Elem(), name, seen)
+	case *types.Array:
+		return typeMentions(x.Elem(), name, seen)
+	case *types.Map:
+		return typeMentions(x.Key(), name, seen) || typeMentions(x.Elem(), name, seen)
+	case *types.Struct:
+		for i := 0; i < x.NumFields(); i++ {
+			if typeMentions(x.Field(i).Type(), name, seen) {
+				return true
+			}
+		}
+	}
+	return false
 }
